@@ -93,6 +93,11 @@ std::optional<std::string> sqf::runtime::fileio::read_file_from_disk(std::string
     {
         return {};
     }
+    std::error_code ec;
+    if (!std::filesystem::is_regular_file(std::filesystem::path(physical_path), ec))
+    { // a directory can be opened, but has no content (and no size) to read
+        return {};
+    }
     std::ifstream file(physical_path.data(), std::ios::ate | std::ios::binary);
 
     if (!file.is_open())
@@ -100,7 +105,12 @@ std::optional<std::string> sqf::runtime::fileio::read_file_from_disk(std::string
         return {};
     }
 
-    auto fileSize = static_cast<size_t>(file.tellg());
+    auto end_position = file.tellg();
+    if (end_position < 0)
+    {
+        return {};
+    }
+    auto fileSize = static_cast<size_t>(end_position);
     std::vector<char> buffer(fileSize);
 
     file.seekg(0);
